@@ -158,16 +158,25 @@ M = [
   [(U, "    if depth >= 1024 {", "    if depth >= 4096 {")]),
  ("M66", "mutant", "a guard created by a deferred function is not counted when the collection decides to re-pin on a full bag (schedule_collection ignores guard_count)", ["C16", "C02"],
   [(I, "        if self.collecting.get() && self.guard_count.get() == 1 {\n            self.repin_without_collect();", "        if self.collecting.get() {\n            self.epoch.store(self.global().epoch.load(Ordering::Relaxed).pinned(), Ordering::Release);")]),
+ ("M68", "mutant", "Rc::clone builds the handle before it counts (a refused count unwinds through a handle that owns nothing; revert of 39968f4, strong side)", ["C01"],
+  [(S, "        unsafe {\n            if let Some(cnt) = self.ptr.as_raw().as_ref() {\n                cnt.increment_strong();\n            }\n        }\n        Self {\n            ptr: self.ptr,\n            _marker: PhantomData,\n        }\n    }", "        let rc = Self {\n            ptr: self.ptr,\n            _marker: PhantomData,\n        };\n        unsafe {\n            if let Some(cnt) = rc.ptr.as_raw().as_ref() {\n                cnt.increment_strong();\n            }\n        }\n        rc\n    }")]),
+ ("M69", "mutant", "Weak::clone builds the handle before it counts (revert of 39968f4, weak side)", ["C05"],
+  [(W, "        self.increment_weak();\n        Self { ptr: self.ptr }", "        let weak = Self { ptr: self.ptr };\n        weak.increment_weak();\n        weak")]),
+ ("M70", "mutant", "push_bag seals with the epoch cached at the last pin (the change three round-4 agents made)", ["C13"],
+  [(I, "        let epoch = self.epoch.load(Ordering::Relaxed);\n        self.queue.push(bag.seal(epoch), guard);", "        let epoch = match unsafe { guard.local.as_ref() } {\n            Some(local) => local.prev_epoch.get().unpinned(),\n            None => self.epoch.load(Ordering::Relaxed),\n        };\n        self.queue.push(bag.seal(epoch), guard);")]),
  ("M55", "mutant", "pop returns the value although the head CAS failed", ["C17"],
   [(Q, "    fn pop_internal(&self, guard: &Guard) -> Result<Option<T>, ()> {\n        let head = self.head.load(Acquire, guard);\n        let h = unsafe { head.deref() };\n        let next = h.next.load(Acquire, guard);\n        match unsafe { next.as_ref() } {\n            Some(n) => unsafe {\n                self.head\n                    .compare_exchange(head, next, Release, Relaxed, guard)\n                    .map(|_| {", "    fn pop_internal(&self, guard: &Guard) -> Result<Option<T>, ()> {\n        let head = self.head.load(Acquire, guard);\n        let h = unsafe { head.deref() };\n        let next = h.next.load(Acquire, guard);\n        match unsafe { next.as_ref() } {\n            Some(n) => unsafe {\n                self.head\n                    .compare_exchange(head, next, Release, Relaxed, guard)\n                    .or_else(|e| if e.ptr_eq(next) { Ok(e) } else { Err(e) })\n                    .map(|_| {")]),
 ]
 
 
 def sh(cmd, cwd=None, env=None, timeout=1800):
+    # (the existing suite hangs on a few mutants: give it 6 minutes)
+    if "cargo test --workspace" in cmd:
+        cmd = "timeout -k 5 360 " + cmd
     e = dict(os.environ)
     if env:
         e.update(env)
-    p = subprocess.run(cmd, shell=True, cwd=cwd, env=e, capture_output=True, text=True, timeout=timeout)
+    p = subprocess.run(["bash", "-c", cmd], cwd=cwd, env=e, capture_output=True, text=True, timeout=timeout)
     return p.returncode, p.stdout + p.stderr
 
 
@@ -219,9 +228,9 @@ def main():
         r = {"kind": kind, "desc": desc, "checks": {}}
         env = {"CARGO_TARGET_DIR": f"{SCR}/target-repo", "CARGO_NET_OFFLINE": "true"}
         if not skip_suite:
-            rc, out = sh("cargo test --workspace --no-fail-fast --offline 2>&1 | grep -E '^test result|error(\\[|:)' ", cwd=f"{SCR}/repo", env=env)
+            rc, out = sh("cargo test --workspace --no-fail-fast --offline 2>&1 | grep -E '^test result|error(\\[|:)' ; echo EXIT=${PIPESTATUS[0]}", cwd=f"{SCR}/repo", env=env)
             failed = "FAILED" in out or "error" in out
-            r["suite"] = "FAILS" if failed else "passes"
+            r["suite"] = "HANGS" if ("EXIT=124" in out or "EXIT=137" in out) else ("FAILS" if failed else "passes")
         rc, out = sh("cargo build --release 2>&1 | tail -3; CARGO_PROFILE_RELEASE_DEBUG_ASSERTIONS=true cargo build --release --target-dir " + SCR + "/target-harness/da 2>&1 | tail -1", cwd=f"{SCR}/harness", env={"CARGO_NET_OFFLINE": "true"})
         if "error" in out:
             r["build"] = out[-400:]
